@@ -1445,6 +1445,17 @@ class SymRange(object):
             if n > interp.max_loop:
                 raise PathLimit("symbolic range exceeded %d iterations" % interp.max_loop)
 
+    def length(self):
+        if self.step != 1:
+            raise Unsupported("len of a range with step")
+        d = self.stop - self.start
+        return sym.ite(d > 0, d, 0) if isinstance(d, Sym) else max(d, 0)
+
+    def __getitem__(self, k):
+        if self.step != 1:
+            raise Unsupported("item of a range with step")
+        return self.start + k
+
     def contains(self, item):
         if self.step != 1:
             raise Unsupported("in range with step")
@@ -1587,6 +1598,8 @@ def _h_len(it, x):
         return x.length()
     if isinstance(x, SymZip):
         return x.length()
+    if isinstance(x, SymRange):
+        return x.length()
     if isinstance(x, AbstractSeq):
         return x.length
     if isinstance(x, Sym):
@@ -1602,6 +1615,8 @@ def _h_len(it, x):
         f = _static_lookup(cls, '__len__')
         if is_repo_function(f):
             return it.call(f, (x,))
+    if type(x).__module__.startswith('pyvc') and not hasattr(type(x), '__len__'):
+        raise Unsupported("len() of the engine object %s" % type(x).__name__)
     return len(x)
 
 
